@@ -169,6 +169,8 @@ class BlockLinearOperator(LinearOperator):
         # This preserves the block structure
         from linear_operator.operators.constant_mul_linear_operator import ConstantMulLinearOperator
 
+        # (a batch of constants has one entry per batch member, i.e. it is constant across the block dimension)
+        other = other.unsqueeze(-1) if other.dim() else other
         return self.__class__(ConstantMulLinearOperator(self.base_linear_op, other))
 
     def _transpose_nonbatch(self: Float[LinearOperator, "*batch M N"]) -> Float[LinearOperator, "*batch N M"]:
